@@ -13,7 +13,7 @@ from .api import Ty, Contract
 from .interp import Interp, PyRaise, Closure, BoundMethod
 from .loops import _call_pred, _param_names
 from .path import PathState, PathAbort, RetryPath, Unsupported
-from .values import SBool, Sym, SOpt, SChoice, to_z3, wrap
+from .values import SBool, SInt, Sym, SOpt, SChoice, to_z3, wrap
 
 MAX_PATHS = 4000
 
@@ -62,7 +62,7 @@ def apply_contract(interp, c, func, args, kwargs):
     """Modular call: assert the precondition, havoc, assume the postcondition."""
     st = interp.st
     st.used_contracts.add(c.qname)
-    if c.returns is None:
+    if c.returns is None and c.yields is None:
         from .api import _returns_a_value
         if c.returns_value is None:
             c.returns_value = _returns_a_value(func)
@@ -78,6 +78,24 @@ def apply_contract(interp, c, func, args, kwargs):
             ghosts[g] = ty.make(interp, 'ghost.%s' % g)
     env = _clause_env(bound, ghosts, {'trace': st.trace, 'ghost': st.ghost})
     caller = interp.current_function_name()
+    # the shape of a parameter is part of the precondition: integer ranges are proved at the call site
+    from .api import _Int
+    for pname, ty in c.params.items():
+        if isinstance(ty, _Int) and (ty.lo is not None or ty.hi is not None) and pname in bound:
+            v = bound[pname]
+            if isinstance(v, (SOpt, SChoice)):
+                v = interp.resolve(v)
+            if isinstance(v, bool) or not isinstance(v, (int, SInt)):
+                continue
+            conds = []
+            if ty.lo is not None:
+                conds.append(to_z3(v) >= ty.lo)
+            if ty.hi is not None:
+                conds.append(to_z3(v) <= ty.hi)
+            ok = wrap(z3.And(*conds))
+            st.oblige('%s : requires[range of %s] of %s' % (caller, pname, c.qname), ok,
+                      {'kind': 'callee-pre', 'callee': c.qname})
+            st.assume(ok)
     if c.requires is not None:
         ok = interp.truth(_call_pred(interp, c.requires, env))
         st.oblige('%s : requires of %s' % (caller, c.qname), ok, {'kind': 'callee-pre', 'callee': c.qname})
@@ -116,6 +134,12 @@ def apply_contract(interp, c, func, args, kwargs):
         if k > 0:
             raise_(*nondet[k - 1])
     result = c.returns.make(interp, 'ret.%s' % c.qname.rpartition(':')[2]) if isinstance(c.returns, Ty) else None
+    if c.yields is not None:
+        # a generator used through its contract: all its items at once (its effects happen at the call)
+        from .models import SIter
+        ys = c.yields.make(interp, 'yielded.%s' % c.qname.rpartition(':')[2])
+        ghosts = dict(ghosts, yielded=ys)
+        result = SIter(ys, 0)
     env2 = _clause_env(bound, ghosts, {'result': result, 'old': old, 'trace': st.trace, 'ghost': st.ghost})
     for name, clause in c.ensures.items():
         if isinstance(clause, tuple):       # (clause, 'effect') : executed for its effect on ghost state
@@ -244,6 +268,7 @@ class FunctionReport:
         self.unknown_feasibility = 0
         self.feasibility_queries = 0
         self.slow_queries = []
+        self.deps_sha = None
 
 
 def verify_function(reg, c, budget_paths=MAX_PATHS):
@@ -298,7 +323,25 @@ def verify_function(reg, c, budget_paths=MAX_PATHS):
         rep.feasibility_queries += stats.get('feasibility_queries', 0)
         rep.slow_queries.extend(stats.get('slow_queries', []))
     rep.wall = time.time() - t0
+    rep.deps_sha = _deps_sha(reg, c, rep)
     return rep
+
+
+def _deps_sha(reg, c, rep):
+    """hash of the source text the obligations of this function were generated from: the function
+    itself and every repository function that was interpreted (inlined) while verifying it"""
+    import hashlib
+    import importlib
+    parts = [rep.sha or '']
+    for q in sorted(rep.inlined):
+        modname, _, path = q.partition(':')
+        try:
+            obj, _owner = frontend.resolve_qualified(q)
+            f = frontend.raw_function(obj)
+            parts.append(q + '=' + (frontend.funcinfo_of(f).source_sha or ''))
+        except Exception:
+            parts.append(q + '=?')
+    return hashlib.sha256('\n'.join(parts).encode()).hexdigest()
 
 
 def _cleanup(st):
@@ -337,6 +380,7 @@ def _run_path(interp, reg, c, func, rep):
     old = None
     if c.old is not None:
         old = _call_pred(interp, c.old, env)
+        reg.ghost_env['old'] = old        # visible to loop invariants
     # positional order of the real function
     code = func.__code__
     names = list(code.co_varnames[:code.co_argcount + code.co_kwonlyargcount])
@@ -361,12 +405,21 @@ def _run_path(interp, reg, c, func, rep):
             if spec.get('when') is not None:
                 pre_whens[exc_cls] = interp.truth(_call_pred(interp, spec['when'], env))
         snaps = snapshot_frame(interp, c, args)
+    info = frontend.funcinfo_of(func)
+    yseq = None
+    if info.is_generator:
+        from .gens import YSeq
+        yseq = YSeq('yielded')
+        if c.yields is not None:
+            yseq.shape = _shape_of_ty(getattr(c.yields, 'elem', None))
+        interp.collect = [info, yseq, False]
     try:
         result = interp.call_real_function(func, pos, kw, c.owner)
-        from .interp import GenObj
         outcome = ('return', result)
     except PyRaise as e:
         outcome = ('raise', e.exc)
+    if yseq is not None:
+        ghosts = dict(ghosts, yielded=yseq)
     key = 'return' if outcome[0] == 'return' else type(outcome[1]).__name__
     rep.outcomes[key] = rep.outcomes.get(key, 0) + 1
     fname = c.qname
@@ -426,6 +479,19 @@ def _run_path(interp, reg, c, func, rep):
     if c.raises_only is not None and outcome[0] == 'return':
         st.oblige('%s : raises_only(%s)' % (fname, ', '.join(_exc_name(e) for e in list(c.raises) + list(c.may_raise)
                                                             + list(c.raises_only))), True, {'kind': 'raises-only'})
+
+
+def _shape_of_ty(ty):
+    from . import api
+    if isinstance(ty, api.FixedList) and ty.as_tuple:
+        return ('tuple', tuple(_shape_of_ty(t) for t in ty.elems))
+    if isinstance(ty, api._Int):
+        return ('int',)
+    if isinstance(ty, api._Bool):
+        return ('bool',)
+    if isinstance(ty, api._Str):
+        return ('str',)
+    return ('obj',)
 
 
 def _exc_name(e):
